@@ -101,6 +101,23 @@ pub fn corpus(thorough: bool) -> Vec<Vec<u8>> {
             }
         }
     }
+    // lists [1|T] and [1,2|T] whose tail T is any small term, in particular the empty ones that are not NIL
+    {
+        let mut tails: Vec<Vec<u8>> = vec![
+            vec![106], vec![109, 0, 0, 0, 0], vec![104, 0], vec![105, 0, 0, 0, 0], vec![116, 0, 0, 0, 0], vec![107, 0, 0], vec![108, 0, 0, 0, 0, 106],
+            vec![77, 0, 0, 0, 0, 0], vec![119, 0], vec![118, 0, 0], vec![97, 0], vec![70, 0, 0, 0, 0, 0, 0, 0, 0], vec![110, 0, 0], vec![109, 0, 0, 0, 1, 0], vec![104, 1, 106],
+            vec![108, 0, 0, 0, 1, 97, 2, 106], vec![108, 0, 0, 0, 1, 97, 2, 97, 3], vec![107, 0, 1, 65],
+        ];
+        for t in leaves_small() { if let Ok(b) = erltf::encode(&t) { tails.push(b[1..].to_vec()); } }
+        for t in &tails {
+            for pre in [&[108u8, 0, 0, 0, 1, 97, 1][..], &[108, 0, 0, 0, 2, 97, 1, 97, 2][..], &[104, 1, 108, 0, 0, 0, 1, 119, 1, b'a'][..]] {
+                let mut b = vec![131u8];
+                b.extend_from_slice(pre);
+                b.extend_from_slice(t);
+                out.push(b);
+            }
+        }
+    }
     // funs whose OldIndex / OldUniq use every integer encoding a peer may choose
     {
         use vcore::bigi::BigI;
@@ -134,6 +151,9 @@ pub fn corpus(thorough: bool) -> Vec<Vec<u8>> {
 }
 
 pub fn run(rep: &Report) -> serde_json::Value {
+    // decoding must be a function of the input alone (no state left behind by rejected inputs)
+    let hist = crate::hist::history_independence(rep);
+    rep.set_extra("history_independence", hist);
     let thorough = rep.thorough();
     let corp = corpus(thorough);
     let distinct: Mutex<HashSet<u64>> = Mutex::new(HashSet::new());
